@@ -118,6 +118,7 @@ func main() {
 	bfs()
 	if !c16mode {
 		nearMiss()
+		extremeSets()
 	}
 	ev.Finish()
 }
@@ -505,6 +506,88 @@ func nearMiss() {
 		}
 		if i == 0 {
 			ev.Sample(map[string]any{"near_miss_base": c.base, "set": c.set, "candidates": len(cand)})
+		}
+	})
+}
+
+// extremeSets: the verdict tracks the history under unusual (but valid) parameter sets as
+// well: very short and very long digests, many threads, larger scrypt parameters.
+func extremeSets() {
+	type ps struct {
+		name string
+		h    store.Hasher
+	}
+	var sets []ps
+	for _, l := range []uint32{4, 5, 64, 100, 512, 1000, 3000, 3036, 3037, 3072, 4096, 8192, 20000, 70000} {
+		h, err := store.NewArgon2IDHasher(&store.Argon2IDParams{Time: 1, Memory: 8, Threads: 1, Length: l})
+		if err == nil {
+			sets = append(sets, ps{fmt.Sprintf("argon2id(length=%d)", l), h})
+		}
+	}
+	for _, th := range []uint8{4, 16, 17, 64, 255} {
+		h, err := store.NewArgon2IDHasher(&store.Argon2IDParams{Time: 1, Memory: 8, Threads: th, Length: 16})
+		if err == nil {
+			sets = append(sets, ps{fmt.Sprintf("argon2id(threads=%d)", th), h})
+		}
+	}
+	for _, c := range [][3]int{{10, 8, 1}, {4, 16, 2}, {1, 64, 1}, {1, 1, 32}} {
+		h, err := store.NewScryptAuthHasher(&store.ScryptAuthParams{HmacKeyBase64: verifx.HmacKeyB64, Cost: uint(c[0]), R: c[1], P: c[2]})
+		if err == nil {
+			sets = append(sets, ps{fmt.Sprintf("scrypt(cost=%d,r=%d,p=%d)", c[0], c[1], c[2]), h})
+		}
+	}
+	verifx.Parallel(len(sets), func(w, i int) {
+		s := sets[i]
+		dir := verifx.Scratch("c01ext")
+		defer os.RemoveAll(dir)
+		d := store.NewDir(dir)
+		d.Params[7] = s.h
+		d.Params[1] = verifx.CheapParams()[1]
+		d.Default = 7
+		viol := func(kind, format string, a ...any) {
+			ev.Violation("paramset:"+kind, "["+s.name+"] "+fmt.Sprintf(format, a...), map[string]any{"set": s.name})
+		}
+		ev.Add("evaluations", 1)
+		ev.Distinct("ext|" + s.name)
+		if err := d.AddUser("u", "first", true); err != nil {
+			viol("add-failed", "AddUser: %v", err)
+			return
+		}
+		expect := func(step, pw string, want bool) {
+			ok, adm, upg, _, err := d.Authenticate("u", pw)
+			if ok != want {
+				viol("verdict", "%s: Authenticate(u,%q)=%v (err %v), want %v", step, pw, ok, err, want)
+			}
+			if ok && (!adm || upg) {
+				viol("flags", "%s: admin=%v upgradeable=%v", step, adm, upg)
+			}
+		}
+		expect("after add", "first", true)
+		expect("after add", "firs", false)
+		expect("after add", "first ", false)
+		if l, err := d.List(); err != nil || len(l) != 1 {
+			viol("list", "after add: List = %v, %v", l, err)
+		}
+		if err := d.Check(); err != nil {
+			viol("check", "after add: Check: %v", err)
+		}
+		if err := d.UpdateUser("u", "second"); err != nil {
+			viol("update-failed", "UpdateUser: %v", err)
+			return
+		}
+		expect("after update", "second", true)
+		expect("after update", "first", false)
+		// written under the other set, read with this configuration
+		d.Default = 1
+		if err := d.UpdateUser("u", "third"); err != nil {
+			viol("update-failed", "UpdateUser under the cheap default: %v", err)
+		}
+		d.Default = 7
+		if ok, _, upg, _, _ := d.Authenticate("u", "third"); !ok || !upg {
+			viol("verdict", "record of the other set: ok=%v upgradeable=%v", ok, upg)
+		}
+		if i == 0 {
+			ev.Sample(map[string]any{"extreme_parameter_set": s.name})
 		}
 	})
 }
